@@ -187,3 +187,15 @@ PROPS["C03"] = {
         {"name": "C03.sign", "test": "TestVerifC03Sign", "shards": 16},
     ],
 }
+
+PROPS["C04"] = {
+    "claimed": False,
+    "level": "exploration",
+    "level_text": "TODO",
+    "level_note": "TODO",
+    "technique": "TODO",
+    "rule": "TODO",
+    "monitors": [
+        {"name": "C04.verdicts", "test": "TestVerifC04Verdicts", "shards": 16},
+    ],
+}
